@@ -126,6 +126,8 @@ EDITS = {
         ("st03", ST + "tree.rs", "DELAY_ADDITIONAL_OFFSET as u64 + *len", "*len", "verus", "state_tree"),
     ],
     "C12": [
+        ("hw01", "crates/lib/mimium-lang/src/runtime/wasm.rs", "    let heap_idx: heap::HeapIdx = unsafe { std::mem::transmute::<u64, heap::HeapIdx>(obj as u64) };\n    heap::heap_release(&mut state.heap, heap_idx);\n}\n\nfn box_store_host", "    let heap_idx: heap::HeapIdx = unsafe { std::mem::transmute::<u64, heap::HeapIdx>(obj as u64) };\n    if state.heap.len() > 1 { heap::heap_release(&mut state.heap, heap_idx); }\n}\n\nfn box_store_host", "verus", "heap"),
+        ("hw02", "crates/lib/mimium-lang/src/runtime/wasm.rs", "    let heap_obj = heap::HeapObject::new(size_words as usize);", "    let heap_obj = heap::HeapObject::new((size_words as usize).max(1));", "verus", "heap"),
         ("lr01", "crates/lib/mimium-lang/src/compiler/mirgen.rs", "                                    ctx.insert_clone_recursively(res.clone(), effective_rt);\n                                    let _ = ctx", "                                    let _ = ctx", "verus", "mirgen_rc"),
         ("lr02", "crates/lib/mimium-lang/src/compiler/mirgen.rs", "                                ctx.insert_close_closures_recursively(cls.clone(), effective_rt);\n                                ctx.insert_clone_recursively(cls.clone(), effective_rt);", "                                ctx.insert_clone_recursively(cls.clone(), effective_rt);", "verus", "mirgen_rc"),
         ("ea10", "crates/lib/mimium-lang/src/compiler/mirgen.rs", "                    self.insert_close_closures_recursively(res.clone(), t);", "                    self.insert_clone_recursively(res.clone(), t);", "verus", "mirgen_rc"),
